@@ -10,13 +10,15 @@
      Strict  Fixed with: map pairs need equal key types, struct pairs the same
              duplicate-free field set, a tagged union on the right is expanded
              precisely.
-   A result None is "model out of fuel"; all theorems are about Some-results,
-   the correspondence run rejects None.  The soundness theorems hold for ALL
+   A result None is "model out of fuel"; the theorems of the first three parts
+   are about Some-results, the correspondence run rejects None.  The last part
+   (fuel sufficiency) proves that in the modes Fixed and Strict None never
+   occurs and restates the theorems without the Some-hypotheses.  The soundness theorems hold for ALL
    types and constants in mode Strict, and in mode Fixed on the fragment where
    both modes give the same answer (written out in each statement); outside
    that fragment the code is unsound: the `_refuted` witnesses. *)
 From Coq Require Import List BinInt String Ascii.
-From MV Require Import Types.Types Types.TypesProofs.
+From MV Require Import Types.Types Types.TypesProofs Types.FuelProofs.
 Import ListNotations.
 Open Scope Z_scope.
 
@@ -189,3 +191,129 @@ Theorem conforms_tagged_refuted :
   set_conforms Strict S T = Some false.
 Proof. vm_compute. repeat split. Qed.
 Print Assumptions conforms_tagged_refuted.
+
+(* ------------------------------------------------------------ fuel sufficiency *)
+(* sc / tc = SetConforms / TypeConforms on k units of fuel; set_conforms m S T =
+   sc m (fuel_for S T) S T with fuel_for S T = 2 * (ty_size S + ty_size T) + 8,
+   likewise type_conforms / tc.  All statements are for EVERY value of the model
+   type `ty` (no well-formedness hypothesis).  Mode Legacy is excluded where
+   totality is claimed: there None is also the index-out-of-range panic of the
+   pre-F7e tuple rule (tuple_length_refuted above). *)
+
+(* more fuel never changes an answer *)
+Theorem conforms_fuel_monotone : forall m k k' S T b,
+  (k <= k')%nat -> sc m k S T = Some b -> sc m k' S T = Some b.
+Proof. exact sc_mono. Qed.
+Print Assumptions conforms_fuel_monotone.
+
+Theorem type_conforms_fuel_monotone : forall m k k' S T b,
+  (k <= k')%nat -> tc m k S T = Some b -> tc m k' S T = Some b.
+Proof. exact tc_mono. Qed.
+Print Assumptions type_conforms_fuel_monotone.
+
+(* the fuel the model uses suffices: the judgements always answer *)
+Theorem conforms_total : forall m S T,
+  m <> Legacy -> exists b, set_conforms m S T = Some b.
+Proof. exact set_conforms_total. Qed.
+Print Assumptions conforms_total.
+
+Theorem tconforms_total : forall m S T,
+  m <> Legacy -> exists b, type_conforms m S T = Some b.
+Proof. exact type_conforms_total. Qed.
+Print Assumptions tconforms_total.
+
+(* ... and with any larger fuel they give the same answer *)
+Theorem conforms_fuel_independent : forall m k S T,
+  m <> Legacy -> (fuel_for S T <= k)%nat -> sc m k S T = set_conforms m S T.
+Proof. exact sc_fuel_independent. Qed.
+Print Assumptions conforms_fuel_independent.
+
+Theorem type_conforms_fuel_independent : forall m k S T,
+  m <> Legacy -> (fuel_for S T <= k)%nat -> tc m k S T = type_conforms m S T.
+Proof. exact tc_fuel_independent. Qed.
+Print Assumptions type_conforms_fuel_independent.
+
+(* the bounds always answer (for every sort function, also one that loses elements) *)
+Theorem upper_bound_answers : forall m srt ts,
+  m <> Legacy -> exists U, upper_bound (set_conforms m) srt ts = Some U.
+Proof. exact upper_bound_total. Qed.
+Print Assumptions upper_bound_answers.
+
+Theorem lower_bound_answers : forall m srt ts,
+  m <> Legacy -> exists L, lower_bound (set_conforms m) srt ts = Some L.
+Proof. exact lower_bound_total. Qed.
+Print Assumptions lower_bound_answers.
+
+(* the hypotheses are satisfiable and not idle: too little fuel does give None,
+   fuel_for is above the threshold, Legacy has a None that no fuel removes *)
+Example fuel_nonvacuous :
+  let S := TTagged (s "/kind") [(s "/a", TStruct [(s "/x", TList (n "/number"))] [])] in
+  let T := TUnion [TStruct [(s "/kind", n "/name"); (s "/x", TList (n "/any"))] []; n "/string"] in
+  Fixed <> Legacy /\ Strict <> Legacy /\
+  sc Fixed 6 S T = None /\ sc Fixed 7 S T = Some true /\ fuel_for S T = 36%nat /\
+  set_conforms Fixed S T = Some true /\ sc Fixed 1000 S T = Some true /\
+  tc Fixed 2 (TList (TList (n "/a/b"))) (TList (TList (n "/a"))) = None /\
+  tc Fixed 3 (TList (TList (n "/a/b"))) (TList (TList (n "/a"))) = Some true /\
+  sc Legacy 1000 (TTuple [n "/any"; n "/any"; n "/number"; n "/any"]) (TTuple [n "/any"; n "/any"; n "/number"]) = None.
+Proof. vm_compute. repeat split; discriminate. Qed.
+
+(* the soundness theorems without the "= Some .." hypotheses: the judgement
+   always answers, and an affirmative answer is sound *)
+Theorem conforms_sound_strict_total : forall S T,
+  set_conforms Strict S T = Some false \/
+  (set_conforms Strict S T = Some true /\ forall c, has_type S c = true -> has_type T c = true).
+Proof. exact set_conforms_strict_decides. Qed.
+Print Assumptions conforms_sound_strict_total.
+
+Theorem type_conforms_sound_strict_total : forall S T,
+  type_conforms Strict S T = Some false \/
+  (type_conforms Strict S T = Some true /\ forall c, has_type S c = true -> has_type T c = true).
+Proof. exact type_conforms_strict_decides. Qed.
+Print Assumptions type_conforms_sound_strict_total.
+
+Theorem conforms_sound_total : forall S T,
+  set_conforms Fixed S T = set_conforms Strict S T ->
+  set_conforms Fixed S T = Some false \/
+  (set_conforms Fixed S T = Some true /\ forall c, has_type S c = true -> has_type T c = true).
+Proof. exact set_conforms_nice_decides. Qed.
+Print Assumptions conforms_sound_total.
+
+(* the bounds exist and are bounds (upper: also no larger than the union of the arguments) *)
+Theorem upper_bound_sound_strict_total : forall srt ts,
+  (forall l x, In x (srt l) <-> In x l) ->
+  exists U, upper_bound (set_conforms Strict) srt ts = Some U /\
+            (forall t c, In t ts -> has_type t c = true -> has_type U c = true) /\
+            (forall c, has_type U c = true -> exists t, In t ts /\ has_type t c = true).
+Proof. exact upper_bound_strict_total_sound. Qed.
+Print Assumptions upper_bound_sound_strict_total.
+
+Theorem lower_bound_sound_strict_total : forall srt ts,
+  (forall l x, In x (srt l) <-> In x l) ->
+  exists L, lower_bound (set_conforms Strict) srt ts = Some L /\
+            forall t c, In t ts -> has_type L c = true -> has_type t c = true.
+Proof. exact lower_bound_strict_total_sound. Qed.
+Print Assumptions lower_bound_sound_strict_total.
+
+Theorem upper_bound_sound_total : forall srt ts,
+  (forall l x, In x (srt l) <-> In x l) ->
+  upper_bound (set_conforms Fixed) srt ts = upper_bound (set_conforms Strict) srt ts ->
+  exists U, upper_bound (set_conforms Fixed) srt ts = Some U /\
+            forall t c, In t ts -> has_type t c = true -> has_type U c = true.
+Proof. exact upper_bound_fixed_total_sound. Qed.
+Print Assumptions upper_bound_sound_total.
+
+Theorem lower_bound_sound_total : forall srt ts,
+  (forall l x, In x (srt l) <-> In x l) ->
+  lower_bound (set_conforms Fixed) srt ts = lower_bound (set_conforms Strict) srt ts ->
+  exists L, lower_bound (set_conforms Fixed) srt ts = Some L /\
+            forall t c, In t ts -> has_type L c = true -> has_type t c = true.
+Proof. exact lower_bound_fixed_total_sound. Qed.
+Print Assumptions lower_bound_sound_total.
+
+(* both disjuncts of the total statements occur *)
+Example total_nonvacuous :
+  set_conforms Strict (TList (n "/a/b")) (TList (n "/a")) = Some true /\
+  set_conforms Strict (TList (n "/a")) (TList (n "/a/b")) = Some false /\
+  has_type (TList (n "/a")) (CListCons (CName (s "/a/c")) CListNil) = true /\
+  has_type (TList (n "/a/b")) (CListCons (CName (s "/a/c")) CListNil) = false.
+Proof. vm_compute. repeat split. Qed.
